@@ -27,7 +27,7 @@ From Coq Require Import NArith List Bool.
 Import ListNotations.
 Open Scope N_scope.
 
-Definition waiter := N.
+Notation waiter := N (only parsing).
 
 (* ------------------------------------------------------------------ the client's maps *)
 Inductive mapk :=
@@ -72,6 +72,7 @@ Fixpoint take (m : mapk) (k : N) (l : list entry) : option entry * list entry :=
   | e :: r => if same m k e then (Some e, r)
               else let (x, r') := take m k r in (x, e :: r')
   end.
+Definition ewo (x : option entry) : option waiter := match x with Some e => ew e | None => None end.
 (* HashMap::get *)
 Definition lookup (m : mapk) (k : N) (l : list entry) : option entry := find (same m k) l.
 
@@ -232,7 +233,7 @@ Definition takem (m : mapk) (k : N) (s : cstate) : option entry * cstate :=
 (* HashMap::insert: an entry already stored under the key is returned and dropped *)
 Definition put (e : entry) (s : cstate) : cstate :=
   let (old, l) := take (ek e) (ekey e) (maps s) in
-  resolve (match old with Some o => ew o | None => None end) Dropped (set_maps (e :: l) s).
+  resolve (ewo old) Dropped (set_maps (e :: l) s).
 
 (* a sender the client creates itself (oneshot::channel() / mpsc::unbounded()) *)
 Definition alloc (s : cstate) : waiter * cstate := (nextw s, set_nextw (nextw s + 1) s).
@@ -283,7 +284,7 @@ Definition req_simple (m : mapk) (k : okind) (ow : option waiter) (aux : N) (en 
     (st : estate) (s : cstate) : hres :=
   let (serial, s1) := ins_serial m ow st aux en cl s in ok (send k (Some serial) s1).
 
-Definition handle_request (q : req) (ow : option waiter) (s : cstate) : hres :=
+Definition handle_request_body (q : req) (ow : option waiter) (s : cstate) : hres :=
   match q with
   | QHandleCloned => ok (set_nh (nh s + 1) s)
   | QHandleDropped => ok (set_nh (nh s - 1) s)
@@ -301,7 +302,7 @@ Definition handle_request (q : req) (ow : option waiter) (s : cstate) : hres :=
       send_conv conv (if ge (ver s) 19 then OCallFunction2 else OCallFunction) (Some serial) s1
   | QCallFunctionReply serial conv =>
       let (x, s1) := takem MAbortCallHandles serial s in
-      let s2 := resolve (match x with Some e => ew e | None => None end) Dropped s1 in
+      let s2 := resolve (ewo x) Dropped s1 in
       send_conv conv OCallFunctionReply (Some serial) s2
   | QEmitEvent sub conv => if sub then send_conv conv OEmitEvent None s else ok s
   | QCreateClaimedSender => req_simple MCreateChannel OCreateChannel ow 0 true false SPlain s
@@ -380,13 +381,18 @@ Definition handle_request (q : req) (ow : option waiter) (s : cstate) : hres :=
       else ok (resolve ow Sent s)
   end.
 
+(* a request without reply sender is simply consumed *)
+Definition handle_request (q : req) (ow : option waiter) (s : cstate) : hres :=
+  if has_reply q then handle_request_body q ow s
+  else handle_request_body q None (resolve ow Dropped s).
+
 (* abort_function_call (1816-1825): FunctionCallMap::abort overwrites Pending(sender) with Aborted *)
 Definition abort_function_call (serial : N) (s : cstate) : hres :=
   let s1 :=
     match lookup MFunctionCalls serial (maps s) with
     | Some _ =>
         let (x, s') := takem MFunctionCalls serial s in
-        let w := match x with Some e => ew e | None => None end in
+        let w := ewo x in
         resolve w Dropped (set_maps (mkE MFunctionCalls serial None SAborted 0 false false :: maps s') s')
     | None => s
     end in
@@ -445,7 +451,7 @@ Definition handle_message (m : msg) (s : cstate) : hres :=
       | Some e =>
           if res =? 0 then
             let (y, s2) := takem MServices (eaux e) s1 in
-            let s3 := resolve (match y with Some f => ew f | None => None end) Dropped s2 in
+            let s3 := resolve (ewo y) Dropped s2 in
             ok (resolve (ew e) Sent s3)
           else if res =? 1 then ok (resolve (ew e) Sent s1)
           else fail EPanic (resolve (ew e) Dropped s1)
@@ -482,7 +488,7 @@ Definition handle_message (m : msg) (s : cstate) : hres :=
       | Some e =>
           let s2 := if eclaimed e
                     then (let (y, s') := takem (end_map (eend e)) (eaux e) s1 in
-                          resolve (match y with Some f => ew f | None => None end) Dropped s')
+                          resolve (ewo y) Dropped s')
                     else s1 in
           ok (resolve (ew e) Sent s2)
       end
@@ -556,7 +562,7 @@ Definition handle_message (m : msg) (s : cstate) : hres :=
       | Some e =>
           let s2 := if okr
                     then (let (y, s') := takem MBusListeners (eaux e) s1 in
-                          resolve (match y with Some f => ew f | None => None end) Dropped s')
+                          resolve (ewo y) Dropped s')
                     else s1 in
           ok (resolve (ew e) Sent s2)
       end
@@ -600,7 +606,7 @@ Definition handle_message (m : msg) (s : cstate) : hres :=
   | MsgAbortFunctionCall serial =>
       if ge (ver s) 16 then
         let (x, s1) := takem MAbortCallHandles serial s in
-        ok (resolve (match x with Some e => ew e | None => None end) Dropped s1)
+        ok (resolve (ewo x) Dropped s1)
       else fail EUnexpected s
   | MsgQueryIntrospection conv =>
       if ge (ver s) 17 then send_conv conv OQueryIntrospectionReply None s else fail EUnexpected s
